@@ -120,6 +120,50 @@ def _is_number(t: str) -> Optional[float]:
         return None
 
 
+INT_THEORY = [False]
+
+
+class int_theory:
+    """Context: operands compared with integer literals are integers (ids, sizes, counts)."""
+
+    def __enter__(self):
+        self.prev = INT_THEORY[0]
+        INT_THEORY[0] = True
+
+    def __exit__(self, *a):
+        INT_THEORY[0] = self.prev
+
+
+def _int_consistent(eqs, lts) -> bool:
+    per: Dict[str, list] = {}
+    for (a, b), v in lts.items():
+        na, nb = _is_number(a), _is_number(b)
+        if na is None and nb is not None and nb == int(nb):
+            per.setdefault(a, []).append(("lt", int(nb), v))  # x < c
+        elif nb is None and na is not None and na == int(na):
+            per.setdefault(b, []).append(("gt", int(na), v))  # c < x
+    for (a, b), v in eqs.items():
+        na, nb = _is_number(a), _is_number(b)
+        if na is None and nb is not None and nb == int(nb):
+            per.setdefault(a, []).append(("eq", int(nb), v))
+        elif nb is None and na is not None and na == int(na):
+            per.setdefault(b, []).append(("eq", int(na), v))
+    for x, cons in per.items():
+        if len(cons) < 2:
+            continue
+        cands = set()
+        for _, c, _v in cons:
+            cands |= {c - 1, c, c + 1}
+        okx = False
+        for cand in cands:
+            if all(((cand < c) if k == "lt" else (c < cand) if k == "gt" else (cand == c)) == v for k, c, v in cons):
+                okx = True
+                break
+        if not okx:
+            return False
+    return True
+
+
 def _consistent(val: Dict[str, bool], keys: List[str]) -> bool:
     """Built-in theory filter."""
     eqs, lts = {}, {}
@@ -130,6 +174,8 @@ def _consistent(val: Dict[str, bool], keys: List[str]) -> bool:
         elif k.startswith("LT:"):
             a, b = k[3:].split(" < ", 1)
             lts[(a, b)] = val[k]
+    if INT_THEORY[0] and not _int_consistent(eqs, lts):
+        return False
     # total order on each operand pair
     for (a, b), v in lts.items():
         if v and lts.get((b, a)):
